@@ -51,6 +51,7 @@ type Spec struct {
 	Filter    string `json:"filter,omitempty"`
 	FilterArg int    `json:"filter_arg,omitempty"`
 	MissingEmb int   `json:"missing_emb"` // -1 none, else chunk index without embedding
+	Huge       int   `json:"huge,omitempty"` // 1-based index of a chunk whose text is 33-70 KB (0 = none)
 	ShortEmb   int   `json:"short_emb,omitempty"` // the embedding list is this many entries shorter than the chunk list
 	StreamClose []int `json:"stream_close,omitempty"` // stream: positions at which Close is called in between
 }
@@ -103,7 +104,12 @@ func makeChunks(sp *Spec) ([]*rag.Chunk, [][]float64) {
 		if r.Pct(5) {
 			id = pick()
 		}
-		chunks = append(chunks, &rag.Chunk{ID: id, Text: pick() + " #" + strconv.Itoa(i), Metadata: md})
+		text := pick() + " #" + strconv.Itoa(i)
+		if sp.Huge == i+1 {
+			// one record larger than any write buffer an exporter may keep
+			text += " " + strings.Repeat(pick()+" long passage ", 2200+r.Intn(2000))
+		}
+		chunks = append(chunks, &rag.Chunk{ID: id, Text: text, Metadata: md})
 		e := []float64{float64(i) + 0.5, -1.25, float64(r.Intn(1000)) / 8}
 		if i == sp.MissingEmb {
 			e = nil
@@ -154,6 +160,9 @@ func (p *Prop) Generate(base uint64, index int, env *sim.Env) *sim.Case {
 	if r.Pct(3) {
 		// a large collection (size-dependent code paths: sharding, pre-sizing, batching remainders)
 		sp.N = 250 + r.Intn(400)
+	}
+	if r.Pct(4) && sp.N > 1 && sp.N < 60 {
+		sp.Huge = 1 + r.Intn(sp.N)
 	}
 	if sp.Format == 2 && r.Pct(30) {
 		sp.Delim = sim.Pick(r, []string{";", "|", "\t", ":", "~"})
@@ -1160,6 +1169,11 @@ func (p *Prop) Shrink(c *sim.Case) []*sim.Case {
 	if sp.Delim != "" {
 		s := sp
 		s.Delim = ""
+		emit(s)
+	}
+	if sp.Huge != 0 {
+		s := sp
+		s.Huge = 0
 		emit(s)
 	}
 	if sp.Flatten {
